@@ -247,9 +247,11 @@ def work(job):
                         bad = "call trace %s, frames active at the failure %s" % (got_n, want)
                     elif out != lines:
                         bad = "output before the failure differs"
-                    elif detail.startswith("assert") and item[0] == "assert":
+                    elif detail.startswith("assert") and item[0] in ("assert", "assert_inline"):
                         # a failed assert names file, line and column of THAT assert (position read off the source text)
                         lvl = vals[0] if 1 <= vals[0] <= 7 else 0
+                        if vals[0] == 8 and gen17.level_in_module(item[1], 8):
+                            lvl = 8
                         in_lib = gen17.level_in_module(item[1], lvl)
                         src_text = ref.render_modules(prog, vals)[gen17.LIB + ".ms"] if in_lib else ref.render(prog, vals)
                         want_pos = gen17.assert_position(src_text, lvl)
